@@ -160,9 +160,10 @@ def concrete_run(nports, lat, sink_delay, reqs, init, variant='cl', dws=None, st
       if a < len(th.mem.mem.mem): th.mem.mem.mem[a] = b
     if stall_scripts and prob == 0.5:
       _install_scripted(th, variant, stall_scripts); stall_scripts = None      # first round: the model's stall decisions; later rounds: the library's own generator
-    th.apply(DefaultPassGroup()); th.sim_reset()
+    th.apply(DefaultPassGroup())
     n = 0
     try:
+      th.sim_reset()            # a cycle-level harness already sends requests during the reset cycles
       while not th.done() and n < 200: th.sim_tick(); n += 1
     except Exception as e:
       return f"MagicMemory{variant.upper()} nports={nports} latency={lat} sink_delay={sink_delay} stall_prob={prob} requests {reqs}: {type(e).__name__}: {str(e)[:300]}"
